@@ -1,6 +1,9 @@
 (* C13 -- No traffic can break the gateway: the engine part.  Statements only. *)
 From Coq Require Import List Bool Arith.
+From Coq Require Import ZArith.
+From Coq Require Sorting.Sorted.
 From RV Require Import M_Engine P_Engine.
+From RV Require M_TxRate P_TxRate.
 Import ListNotations.
 
 (* taking a snapshot or restoring one -- whether its body succeeds or raises -- leaves every engine
@@ -48,3 +51,14 @@ Theorem C13_merged_guard_refuted :
   snd (step true (fst (resume_merged (fst (pause replaying)))) Rx) = Dropped /\
   snd (run true replaying [GetState false; Rx]) = [Done; Handled 7].
 Proof. exact merged_guard_refuted. Qed.
+
+(* a view of the LIVE gateway: the transmit rate in Gateway.status (M_TxRate = _FullTransport._report_transmit_rate, also evaluated inside every
+   write).  For EVERY history of transmits a positive time apart, read at ANY later moment -- minutes of silence included -- it is a number *)
+Theorem C13_tx_rate_total : forall now ts, Sorted.StronglySorted Z.lt ts -> M_TxRate.raises (M_TxRate.report now ts) = false.
+Proof. exact P_TxRate.report_total. Qed.
+(* the slip "leave early on the number of ALL tracked transmits": IndexError after 301 s of silence, ZeroDivisionError at the next write *)
+Theorem C13_tx_rate_early_exit_refuted :
+  M_TxRate.report_slip 302000000 [0; 1000000]%Z = M_TxRate.RaisesIndex /\
+  M_TxRate.report_slip 302000000 [0; 1000000; 302000000]%Z = M_TxRate.RaisesZeroDivision /\
+  M_TxRate.report 302000000 [0; 1000000]%Z = M_TxRate.Count 0 /\ M_TxRate.report 302000000 [0; 1000000; 302000000]%Z = M_TxRate.Count 1.
+Proof. exact P_TxRate.early_exit_before_window_refuted. Qed.
